@@ -34,6 +34,14 @@ def log_uniform(lo, hi):
     return floats(math.log(lo), math.log(hi)).map(math.exp)
 
 
+def near(values, lo, hi, dmin=1e-13, dmax=1.0):
+    """A special value plus or minus an offset whose *magnitude* is log-uniform over [dmin, dmax]: neighbourhoods of every
+    width around the named values of a domain (cardinal directions, whole degrees, limits), clamped to [lo, hi]."""
+    vals = sorted(set(float(v) for v in values))
+    return st.tuples(st.sampled_from(vals), st.booleans(), floats(math.log(dmin), math.log(dmax))).map(
+        lambda t: min(max(t[0] + (1 if t[1] else -1) * math.exp(t[2]), lo), hi))
+
+
 def ellipsoid_spec(invf_lo=150.0, invf_hi=400.0, shipped_weight=2):
     shipped = st.sampled_from(SHIPPED_ELLIPSOIDS)
     custom = st.fixed_dictionaries({"a": floats(6.3e6, 6.4e6), "invf": floats(invf_lo, invf_hi)})
